@@ -293,25 +293,26 @@ package wire
 
 //@ func ParseParameters
 //@   props C20 C04
+//@   bind M = (*regexp.Regexp).FindAllStringSubmatch
 //@   ensures [zero-oids] each(result, p, p == 0)
-//@   atreturn [count-anonymous] maxPos(matches, len(matches)) == 0 ==> len(result) == anonCount(matches, len(matches))
-//@   atreturn [count-positional] anonCount(matches, len(matches)) == 0 ==> len(result) == maxPos(matches, len(matches))
-//@   atreturn [bounded] len(result) <= anonCount(matches, len(matches)) + 65535 && anonCount(matches, len(matches)) <= len(matches)
-//@   atreturn [bounded-alloc] #maxalloc <= max(old(#maxalloc), 8 * (len(matches) + 65535) + 256)
+//@   atreturn [count-anonymous] maxPos(M, len(M)) == 0 ==> len(result) == anonCount(M, len(M))
+//@   atreturn [count-positional] anonCount(M, len(M)) == 0 ==> len(result) == maxPos(M, len(M))
+//@   atreturn [bounded] len(result) <= anonCount(M, len(M)) + 65535 && anonCount(M, len(M)) <= len(M)
+//@   atreturn [bounded-alloc] #maxalloc <= max(old(#maxalloc), 8 * (len(M) + 65535) + 256)
 //@   modifies #maxalloc, #nalloc
 //@   loop 0
-//@     invariant [range] -1 <= $index && $index + 1 <= len(matches)
-//@     invariant [anon-le] anonCount(matches, $index + 1) <= $index + 1
-//@     invariant [bounded-alloc] #maxalloc <= max(old(#maxalloc), 8 * (len(matches) + 65535) + 256)
-//@     invariant [lower] len(parameters) >= maxPos(matches, $index + 1)
-//@     invariant [upper] len(parameters) <= maxPos(matches, $index + 1) + anonCount(matches, $index + 1)
-//@     invariant [anon-nonneg] anonCount(matches, $index + 1) >= 0 && maxPos(matches, $index + 1) >= 0 && maxPos(matches, $index + 1) <= 65535
-//@     invariant [count-anonymous] maxPos(matches, $index + 1) == 0 ==> len(parameters) == anonCount(matches, $index + 1)
-//@     invariant [count-positional] anonCount(matches, $index + 1) == 0 ==> len(parameters) == maxPos(matches, $index + 1)
+//@     invariant [range] -1 <= $index && $index + 1 <= len(M)
+//@     invariant [anon-le] anonCount(M, $index + 1) <= $index + 1
+//@     invariant [bounded-alloc] #maxalloc <= max(old(#maxalloc), 8 * (len(M) + 65535) + 256)
+//@     invariant [lower] len(parameters) >= maxPos(M, $index + 1)
+//@     invariant [upper] len(parameters) <= maxPos(M, $index + 1) + anonCount(M, $index + 1)
+//@     invariant [anon-nonneg] anonCount(M, $index + 1) >= 0 && maxPos(M, $index + 1) >= 0 && maxPos(M, $index + 1) <= 65535
+//@     invariant [count-anonymous] maxPos(M, $index + 1) == 0 ==> len(parameters) == anonCount(M, $index + 1)
+//@     invariant [count-positional] anonCount(M, $index + 1) == 0 ==> len(parameters) == maxPos(M, $index + 1)
 //@     invariant [zero-oids] each(parameters, p, p == 0)
 //@     invariant [own-array] arr(parameters) > old(#alloc)
-//@     invariant [matches] each(matches, m, len(m) == 2 && (m[1] == "" || ufb("digits", m[1])))
-//@     decreases len(matches) - $index
+//@     invariant [matches] each(M, m, len(m) == 2 && (m[1] == "" || ufb("digits", m[1])))
+//@     decreases len(M) - $index
 
 // ---- COPY-in ---------------------------------------------------------------------------
 
@@ -338,11 +339,12 @@ package wire
 //@   ensures [fail-error] (#nIn > old(#nIn) && #lastIn != 'd' && #lastIn != 'c' && #lastIn != 'H' && #lastIn != 'S') ==> (result != nil && result != io.EOF)
 //@   ensures [error-text] (#nIn > old(#nIn) && #lastIn != 'd' && #lastIn != 'c' && #lastIn != 'H' && #lastIn != 'S') ==> ErrTextOK(result)
 //@   ensures [silent] {C13 C05} OutSame()
+//@   ensures [flush-sync-ignored] {C13} (#nIn > old(#nIn) && (#lastIn == 'H' || #lastIn == 'S')) ==> !#lastReadOK
 //@   ensures [err-kind] (result != nil && #nIn > old(#nIn) && #lastIn != 'd' && #lastIn != 'c' && #lastIn != 'H' && #lastIn != 'S') ==> !isExceeded(result)
 //@   ensures [no-overwrite] {C18} (wa <= old(#alloc) && Exposed(old(r.Reader.Msg), wa, wi)) ==> mem(wa, wi) == old(mem(wa, wi))
 //@   ensures [stays-exposed] {C18} (wa <= old(#alloc) && Exposed(old(r.Reader.Msg), wa, wi)) ==> Exposed(r.Reader.Msg, wa, wi)
 //@   ensures [alloc-bound] {C04} #maxalloc <= max(old(#maxalloc), max(r.Reader.MaxMessageSize, 4096))
-//@   modifies r.Reader.Buffer.#pos, arrayof(r.Reader.header), r.Reader.Msg, memtail(r.Reader.Msg), #maxalloc, #nalloc, #nIn, #lastIn
+//@   modifies r.Reader.Buffer.#pos, arrayof(r.Reader.header), r.Reader.Msg, memtail(r.Reader.Msg), #maxalloc, #nalloc, #nIn, #lastIn, #lastReadOK
 //@   loop 0
 //@     invariant [ok] ReaderOK(r.Reader) && WriterReady(r.writer)
 //@     invariant [skipped] #nIn >= old(#nIn) && (#nIn > old(#nIn) ==> (#lastIn == 'H' || #lastIn == 'S'))
@@ -587,11 +589,11 @@ package wire
 //@   ensures [one-t] result == nil ==> (#nOut == old(#nOut) + 1 && #last == 't' && #nZ == old(#nZ) && #nE == old(#nE) && #failed == old(#failed))
 //@   ensures [failed] result != nil ==> (#nOut == old(#nOut) && #nZ == old(#nZ) && #nE == old(#nE) && #failed)
 //@   ensures [err-kind] result != nil ==> SinkErr(result)
-//@   callsite (*buffer.Writer).AddInt16 [announces-len] {C08 C20} $i == wrap16(len(parameters))
+//@   callsite (*buffer.Writer).AddInt16 [announces-len] {C08 C20} $i == wrap16(len(parameters0))
 //@   callsite (*buffer.Writer).AddInt32 [announces-oid] {C08 C20} $i == wrap32(parameter)
 //@   modifies WriterState(writer), Out()
 //@   loop 0
-//@     invariant [frame] writer.err == nil && FrameOK(writer) && writer.#ft == 't' && writer.#gs == 40 && writer.#gn == len(parameters) && writer.#gk == $index + 1
+//@     invariant [frame] writer.err == nil && FrameOK(writer) && writer.#ft == 't' && writer.#gs == 40 && writer.#gn == len(parameters0) && len(parameters) == len(parameters0) && writer.#gk == $index + 1
 //@     invariant [range] -1 <= $index && $index + 1 <= len(parameters)
 //@     invariant [out] #nOut == old(#nOut) && #nZ == old(#nZ) && #nE == old(#nE) && #last == old(#last) && #cyc == old(#cyc) && #failed == old(#failed)
 //@     invariant [E-kept] #E_mask == old(#E_mask) && #E_S == old(#E_S) && #E_C == old(#E_C) && #E_M == old(#E_M) && #E_D == old(#E_D) && #E_H == old(#E_H) && #E_F == old(#E_F) && #E_L == old(#E_L) && #E_R == old(#E_R) && #E_n == old(#E_n)
